@@ -210,6 +210,7 @@ def parse_kani_output(out):
                    or "not currently supported" in c["description"].lower()]
     vccs = re.search(r"Generated (\d+) VCC\(s\), (\d+) remaining after simplification", out)
     symex = re.search(r"Runtime Symex: ([0-9.e+-]+)s", out)
+    steps = re.search(r"size of program expression: (\d+) steps", out)
     solver = re.findall(r"Runtime Solver: ([0-9.e+-]+)s", out)
     return {
         "verdict": verdict,
@@ -224,6 +225,7 @@ def parse_kani_output(out):
         "unsupported": unsupported,
         "vccs": [int(vccs.group(1)), int(vccs.group(2))] if vccs else None,
         "symex_s": float(symex.group(1)) if symex else None,
+        "symex_steps": int(steps.group(1)) if steps else 0,
         "solver_s": round(sum(float(x) for x in solver), 3) if solver else None,
     }
 
